@@ -18,7 +18,7 @@ RULE = ('history = pool of generated expression ASTs (depth <= 5: traced functio
         '1024) predicting values, identity of cached results, invocation counts, cache_info() and LazyObjectMissingError; second '
         'scenario: LruCache state machine vs the same model for maxsize 1..5; non-trivial = depth >= 3 with a lazy argument, or a '
         'history that exceeds a bound and re-touches an old key; distinct = distinct canonical case JSON'
-        '; also: keyword order, same-object cached calls with array arguments, bytes arguments, floods of 255..300 held objects, arguments that raise StopIteration, single-underscore attribute names')
+        '; also: keyword order, same-object cached calls with array arguments, bytes arguments, floods of 255..300 held objects, arguments that raise StopIteration, single-underscore attribute names, a held object dropped and then dereferenced')
 ASSUMPTIONS = [
     'all callables live in vlib/targets.py (importable, so cloudpickle pickles them by reference) and count their invocations',
     'expression equality (cache key) is the library\'s: same callable, same arguments and keyword arguments, recursively - the '
@@ -400,6 +400,10 @@ def strat_history(tier):
       # more than 2**8 held objects are created while earlier handles are still in use (well below the cache bound)
       ops.insert(draw(st.integers(1, len(ops))), ['flood_objects', draw(st.sampled_from([255, 256, 257, 300]))])
       ops += [['deref', 0], ['deref', 1]]
+    if draw(st.integers(0, 4)) == 0:
+      # a held object is dropped and then asked for: create one, clear the object store, dereference
+      exprs = exprs[:3] + [{'k': 'call', 'fn': 'make_counting', 'args': [{'c': draw(st.integers(0, 5))}], 'cache': False, 'lazy': True}]
+      ops += [['make', len(exprs) - 1], ['clear_object'], ['deref', draw(st.integers(0, 5))]]
     case = {'exprs': exprs, 'ops': ops}
     if draw(st.integers(0, 3)) == 0:
       case['arr_exprs'] = draw(st.lists(st.builds(
